@@ -1,6 +1,6 @@
 SPECIFICATION Spec
 CONSTANTS
-  Scenarios <- C01QuickScenarios
+  Scenarios <- QuickScenarios
   Ticks = FALSE
   SkipFix = TRUE
   CctFix = TRUE
